@@ -1,9 +1,139 @@
-/- Line-protocol driver stub: answers every request line with "unimplemented". -/
-partial def loop (h : IO.FS.Stream) (out : IO.FS.Stream) : IO Unit := do
+/-
+  Line-protocol driver of the evaluation model (C17, int side of C19) and of the tuner's parameter
+  vector model (C19 b).  One request line in, exactly one answer line out.  Core-only.
+
+  Requests
+    cs shipped                      use `eval.Coefficients` (the initial state)
+    cs <n>*                         use the coefficient set whose leaves, in declaration order and
+                                    row-major per field, are the given integers          → `ok <count>`
+    e <dump>                        <dump> as printed by implutil.Dump / Drv/Board.lean `dump`
+                                    → `<valid><wf><oneKing> <evalInt cs b> <evalInt cs (mirror b)> | <dump of mirror b without history>`
+    q <dump>                        → exact-arithmetic evaluation with the TABLE as sigmoid, white-relative,
+                                    as a reduced fraction `num/den` (used by the C19 float comparison)
+    ec                              EngineCoeffs(): the leaves of the converted shipped struct
+    tv <targets> | <leaves>         ToVector of the struct with the given leaves   → the vector
+    sv <targets> | <leaves> | <vec> SetVector                                      → `panic` | the leaves of the result
+    tp <targets> | <leaves>         TunedParams                                    → `k:field:i.j` …
+  <targets> is a comma separated list of names (`-` = empty list).
+-/
+import ChessVerif.Model.Eval
+import ChessVerif.Model.TunerVector
+import ChessVerif.Model.Abs
+
+open ChessVerif ChessVerif.Eval
+
+structure DS where
+  cs : CoeffSet Int := shipped
+  csQ : CoeffSet Rat := shippedQ
+
+def hexVal (c : Char) : Nat :=
+  if '0' ≤ c ∧ c ≤ '9' then c.toNat - 48
+  else if 'a' ≤ c ∧ c ≤ 'f' then c.toNat - 87
+  else if 'A' ≤ c ∧ c ≤ 'F' then c.toNat - 55 else 0
+
+def parseHex (s : String) : Nat := s.foldl (fun acc c => acc * 16 + hexVal c) 0
+
+def hx (b : BB) : String := String.ofList (Nat.toDigits 16 b.toNat)
+
+def parseInt (s : String) : Int := s.toInt?.getD 0
+
+/-- parse `sq ps cs stm ep castles fifty fullMoves [hashes]`. -/
+def parseDump (ws : List String) : Option Board :=
+  match ws with
+  | sq :: ps :: cs :: stm :: ep :: castles :: fifty :: full :: _ =>
+    let sqA := (sq.toList.map fun c => Piece.ofIx (c.toNat - 48)).toArray
+    let psA := ((ps.splitOn ",").map fun h => BitVec.ofNat 64 (parseHex h)).toArray
+    let csA := ((cs.splitOn ",").map fun h => BitVec.ofNat 64 (parseHex h)).toArray
+    if sqA.size != 64 || psA.size != 7 || csA.size != 2 then none else
+    some { sq := Vector.ofFn fun (i : Fin 64) => sqA.getD i.val Piece.none,
+           pieces := Vector.ofFn fun (i : Fin 7) => psA.getD i.val 0,
+           colors := Vector.ofFn fun (i : Fin 2) => csA.getD i.val 0,
+           hashes := [],
+           fullMoves := parseInt full,
+           stm := Color.ofIx stm.toNat!,
+           ep := ep.toNat!,
+           castles := BitVec.ofNat 4 castles.toNat!,
+           fifty := parseInt fifty }
+  | _ => none
+
+def dumpLite (b : Board) : String :=
+  let sq := String.join ((List.range 64).map fun s => toString (b.pieceAt s).toNat)
+  let ps := String.intercalate "," ((List.range 7).map fun i => hx (b.pieces.getD i 0))
+  let cs := String.intercalate "," ((List.range 2).map fun i => hx (b.colors.getD i 0))
+  s!"{sq} {ps} {cs} {b.stm.toNat} {b.ep} {b.castles.toNat} {b.fifty} {b.fullMoves}"
+
+def bstr (x : Bool) : String := if x then "1" else "0"
+
+/-- split the flat leaves of the whole struct into the per-field lists of the regenerated shape. -/
+def splitFields (shape : List (String × List Nat)) (flat : List Int) : List (String × List Int) :=
+  (shape.foldl (fun (acc : List (String × List Int) × List Int) (n, dims) =>
+    let sz := dims.foldl (· * ·) 1
+    (acc.1 ++ [(n, acc.2.take sz)], acc.2.drop sz)) ([], flat)).1
+
+def shapeSize (shape : List (String × List Nat)) : Nat :=
+  shape.foldl (fun acc (_, dims) => acc + dims.foldl (· * ·) 1) 0
+
+def parseInts (ws : List String) : List Int := (ws.filter (· ≠ "")).map parseInt
+
+def parseTargets (s : String) : List String := if s == "-" then [] else s.splitOn ","
+
+def repOf (flat : List Int) : TunerVector.Rep Int :=
+  let fs := splitFields Gen.Eval.shape flat
+  TunerVector.ofShape 0 Gen.Eval.shape fun n => (fs.lookup n).getD []
+
+def repLeaves (e : TunerVector.Rep Int) : List Int := e.flatMap fun (_, t) => t.flatten
+
+def intsStr (l : List Int) : String := " ".intercalate (l.map toString)
+
+def ratStr (q : Rat) : String := s!"{q.num}/{q.den}"
+
+/-- the table sigmoid extended to rationals (only integer arguments occur with integer coefficients). -/
+def sigmaTable (x : Rat) : Rat := (sigmTable x.floor : Rat)
+
+def step (st : DS) (line : String) : DS × String :=
+  match line.splitOn " " with
+  | ["cs", "shipped"] => ({ cs := shipped, csQ := shippedQ }, "ok shipped")
+  | "cs" :: rest =>
+    let flat := parseInts rest
+    if flat.length != shapeSize Gen.Eval.shape then (st, s!"err {flat.length}") else
+    let fs := splitFields Gen.Eval.shape flat
+    ({ cs := CoeffSet.ofFlat id (lookupField fs), csQ := CoeffSet.ofFlat (fun n => (n : Rat)) (lookupField fs) },
+     s!"ok {flat.length}")
+  | "e" :: rest =>
+    match parseDump rest with
+    | none => (st, "err")
+    | some b =>
+      let i := input b
+      let oneKing := isPow2 (i.kingBB .white) && isPow2 (i.kingBB .black)
+      let m := mirror b
+      (st, s!"{bstr b.valid}{bstr b.wf}{bstr oneKing} {evalInt st.cs b} {evalInt st.cs m} | {dumpLite m}")
+  | "q" :: rest =>
+    match parseDump rest with
+    | none => (st, "err")
+    | some b => (st, ratStr (tunerEvalQ sigmaTable st.csQ b))
+  | ["ec"] => (st, intsStr (repLeaves (TunerVector.engineCoeffs id TunerVector.shippedRep)))
+  | "tv" :: t :: "|" :: rest =>
+    (st, intsStr (TunerVector.toVector (repOf (parseInts rest)) (parseTargets t)))
+  | "sv" :: t :: "|" :: rest =>
+    let parts := (" ".intercalate rest).splitOn " | "
+    match parts with
+    | [leaves, vec] =>
+      match TunerVector.setVector (repOf (parseInts (leaves.splitOn " "))) (parseInts (vec.splitOn " ")) (parseTargets t) with
+      | none => (st, "panic")
+      | some e => (st, intsStr (repLeaves e))
+    | _ => (st, "err")
+  | "tp" :: t :: "|" :: rest =>
+    let e := repOf (parseInts rest)
+    (st, " ".intercalate ((TunerVector.tunedParams e (parseTargets t)).map fun (k, (fi, p)) =>
+      s!"{k}:{fi}:{".".intercalate (p.map toString)}"))
+  | _ => (st, "bad-op")
+
+partial def loop (h out : IO.FS.Stream) (st : DS) : IO Unit := do
   let line ← h.getLine
   if line.isEmpty then return ()
-  out.putStrLn "unimplemented"
+  let (st', ans) := step st (String.ofList (line.toList.filter fun c => c != '\n' && c != '\r'))
+  out.putStrLn ans
   out.flush
-  loop h out
+  loop h out st'
 
-def main : IO Unit := do loop (← IO.getStdin) (← IO.getStdout)
+def main : IO Unit := do loop (← IO.getStdin) (← IO.getStdout) {}
